@@ -152,6 +152,26 @@ def run(ctx):
             if a.get("ok") != str(n) or a.get("back") != str(n):
                 bad += 1
                 rep.tie_break("correspondence", "Lex.digits/parseNat vs str/int", {"n": str(n), "model": a})
+        # parse_int on the texts int_num accepts (digits, optional exponent with optional +): exact integers of any size
+        texts = []
+        for _ in range(300):
+            t = str(rng.randrange(10 ** rng.randint(0, 30)))
+            if rng.random() < 0.7:
+                t += rng.choice("eE") + rng.choice(["", "", "+"]) + str(rng.choice([0, 1, 2, 5, 17, 40, 300, rng.randint(0, 99)]))
+            if rng.random() < 0.2:
+                t = "00" + t
+            texts.append(t)
+        pi = ctx.driver.batch([{"op": "lex", "what": "parseInt", "text": t} for t in texts])
+        for t, a in zip(texts, pi):
+            rep.count("tie", "parse_int")
+            try:
+                real = U.parse_int([t])
+            except Exception as e:      # noqa
+                real = "raised " + type(e).__name__
+            if isinstance(real, bool) or not isinstance(real, int) or str(real) != a.get("value"):
+                bad += 1
+                if bad <= 12:
+                    rep.tie_break("correspondence", "Lex.parseIntText vs utils.parse_int", {"text": t, "real": repr(real)[:80], "model": a})
         rep.count("correspondence_mismatches", None, bad)
 
     # ---------------- oracle: strings through parse, in five positions and four entry points
